@@ -1612,13 +1612,14 @@ func TestEventPattern(t *testing.T) {
 		kv := map[string][]byte{}
 		var keys, vals [][]byte
 		for _, e := range events {
-			for _, p := range e.KeyPairs() {
-				if _, dup := kv[string(p.Key)]; dup {
-					t.Fatalf("harness assumption broken: duplicate event key %x", p.Key)
+			ks, vs := eventPairs(e)
+			for x := range ks {
+				if _, dup := kv[string(ks[x])]; dup {
+					t.Fatalf("harness assumption broken: duplicate event key %x", ks[x])
 				}
-				kv[string(p.Key)] = p.Value
-				keys = append(keys, p.Key)
-				vals = append(vals, p.Value)
+				kv[string(ks[x])] = vs[x]
+				keys = append(keys, ks[x])
+				vals = append(vals, vs[x])
 			}
 		}
 		want := msmt.Root(12, kv)
@@ -2535,13 +2536,14 @@ func TestDenseEventRoot(t *testing.T) {
 		kv := map[string][]byte{}
 		var keys, vals [][]byte
 		for _, e := range events {
-			for _, pr := range e.KeyPairs() {
-				if _, dup := kv[string(pr.Key)]; dup {
-					t.Fatalf("harness assumption broken: duplicate event key %x", pr.Key)
+			ks, vs := eventPairs(e)
+			for x := range ks {
+				if _, dup := kv[string(ks[x])]; dup {
+					t.Fatalf("harness assumption broken: duplicate event key %x", ks[x])
 				}
-				kv[string(pr.Key)] = pr.Value
-				keys = append(keys, pr.Key)
-				vals = append(vals, pr.Value)
+				kv[string(ks[x])] = vs[x]
+				keys = append(keys, ks[x])
+				vals = append(vals, vs[x])
 			}
 		}
 		want := msmt.Root(12, kv)
@@ -2687,4 +2689,20 @@ func TestRegressForgedClimbingQuery(t *testing.T) {
 		t.Fatalf("proof with a forged inclusion claim for %x verifies", forgedKey)
 	}
 	evid.R.Case("regress-forged-climbing", true, func() any { return "map {00000000,00008001}, forged pair key 00008000 bitmap 030000 + forged sibling" }, "regress")
+}
+
+// eventPairs restates LIP-0065 for the event root: one key per topic = first 8 bytes of SHA-256(topic) followed by the 4-byte big-endian
+// number (event index << 2) + topic position; value = the encoded event. (Oracle audit: the tests used Event.KeyPairs(), i.e. the key
+// derivation under test; a derivation that dropped the topic position or the index would have been mirrored.)
+func eventPairs(e *blockchain.Event) (keys, vals [][]byte) {
+	enc := e.Encode()
+	for i, topic := range e.Topics {
+		th := sha256.Sum256(topic)
+		k := append([]byte{}, th[:8]...)
+		var ib [4]byte
+		binary.BigEndian.PutUint32(ib[:], e.Index<<2+uint32(i))
+		keys = append(keys, append(k, ib[:]...))
+		vals = append(vals, enc)
+	}
+	return keys, vals
 }
